@@ -95,6 +95,12 @@ def run(tier):
     exe = targets.get("h_easy")
     d = outdir(PID)
     t1 = time.time()
+    # objective data in units of 2^omag: every fifth case has integer-valued objective coefficients beyond 32 bits
+    for i_, c_ in enumerate(cases):
+        c_["omag"] = 30 if i_ % 5 == 2 else 0
+    # every fourth case: the user-facing calls go through the C API
+    for i_, c_ in enumerate(cases):
+        c_["capi"] = (i_ % 4 == 1)
     prevs = pick_prevs(cases)
     lines = run_cases(exe, cases, d, prevs)
     log("[C08] h_easy: %d records, %.1fs" % (len(lines), time.time() - t1))
@@ -157,14 +163,14 @@ def run(tier):
                        "subset, single off-diagonal i<j / i>j, both triangles, duplicates, outer-only / inner-only variables, full, "
                        "triangular) with linear part given / not given / zero, offset, both declared formats, text/binary, comments, "
                        "row matrices, warm starts, suffixes of all kinds, names rotated; each is written by the real NLModel/NLSolver, "
-                       "read back by the real mp::ReadNLFile (every second case on NLSolver/PreprocessData objects that handled a different generated model before), a .sol is returned through ReadSolution() and the one-call Solve(); "
+                       "read back by the real mp::ReadNLFile (every fourth case through the C API of the same calls; every second case on NLSolver/PreprocessData objects that handled a different generated model before), a .sol is returned through ReadSolution() and the one-call Solve(); "
                        "TLC decides legality of the NL image under the reported permutation and equality of the objective as a "
                        "function on {-1,0,1,2}^n" + ("" if tier == "thorough" else " (quick: n=4 sampled 1/17)"),
         "design_check": {"module": "MCEasyModel", "distinct_states": mc.distinct},
         "rejected": len(bad), "violations_new": nnew,
     }, time.time() - t0, violations=nnew,
         assumptions=["objective semantics: c0 + c.x + 1/2 * sum over ALL given Hessian entries v*x_i*x_j (duplicates add) for both declared formats (nl-model.h: 0.5 x'Qx; shipped MIQP example)",
-                     "all data are small integers; coefficients n/4 are exact in doubles; Hessian values and row coefficients are nonzero",
+                     "all data are small integers; coefficients n/4 are exact in doubles; Hessian values and row coefficients are nonzero; in every fifth case the objective data (offset, linear and Hessian values) are multiplied by 2^30 when the model is built and what is read back of the objective is divided by it (exact), so that integer-valued constants beyond the 32-bit range are written",
                      "the NL image is observed through mp::ReadNLFile (include/mp/nl-reader.h) with a recording handler, .col/.row as text lines",
                      "the solver is a shell command that copies a prepared text .sol into place",
                      "a variable is nonlinear iff it occurs as either index of a Hessian entry; binary = integer type with bounds [0,1]"])
